@@ -36,7 +36,8 @@ def apply_sar_adc(
     -------
     ndarray
     """
-    data_digitized_2d = np.zeros((num_rows, num_cols))
+    # Use integers to avoid rounding errors for resolutions above 53 bits
+    data_digitized_2d = np.zeros((num_rows, num_cols), dtype=np.uint64)
 
     signal_normalized_2d = signal_2d.copy()
 
@@ -49,7 +50,7 @@ def apply_sar_adc(
         digital_value = 2 ** (adc_bits - (i + 1))
 
         # All data that is higher than the ref is equal to the dig. value
-        data_digitized_2d[signal_normalized_2d >= ref] += digital_value
+        data_digitized_2d[signal_normalized_2d >= ref] += np.uint64(digital_value)
 
         # Subtract ref value from the data
         signal_normalized_2d[signal_normalized_2d >= ref] -= ref
